@@ -178,7 +178,7 @@ func fsEq(a, b driver.Value) bool {
 }
 
 var (
-	fsSelectRe = regexp.MustCompile(`^SELECT (.+?) FROM (\w+)(?: WHERE (.+?))?(?: ORDER BY .+?)?(?: LIMIT (\d+))?(?: FOR UPDATE)?$`)
+	fsSelectRe = regexp.MustCompile(`(?s)^SELECT (.+?) FROM (\w+)(?: WHERE (.+?))?(?: ORDER BY .+?)?(?: LIMIT (\d+))?(?: FOR UPDATE)?$`)
 	fsInsertRe = regexp.MustCompile(`^INSERT INTO (\w+) \((.+?)\) VALUES (.+?)( ON DUPLICATE KEY UPDATE .+)?$`)
 	fsUpdateRe = regexp.MustCompile(`^UPDATE (\w+) SET (.+?)(?: WHERE (.+))?$`)
 	fsDeleteRe = regexp.MustCompile(`^DELETE FROM (\w+)(?: WHERE (.+))?$`)
@@ -199,15 +199,22 @@ type fsWhereParser struct {
 	args int
 }
 
+func fsSpace(c byte) bool { return c == ' ' || c == '\n' || c == '\t' || c == '\r' }
+
 func (p *fsWhereParser) ws() {
-	for p.i < len(p.s) && p.s[p.i] == ' ' {
+	for p.i < len(p.s) && fsSpace(p.s[p.i]) {
 		p.i++
 	}
 }
 
+// kw: a keyword as MySQL reads it: any case, any white space around it; "||" is OR (MySQL's default sql_mode)
 func (p *fsWhereParser) kw(k string) bool {
 	p.ws()
-	if strings.HasPrefix(p.s[p.i:], k) && (p.i+len(k) == len(p.s) || p.s[p.i+len(k)] == ' ' || p.s[p.i+len(k)] == '(') {
+	if k == "OR" && strings.HasPrefix(p.s[p.i:], "||") {
+		p.i += 2
+		return true
+	}
+	if len(p.s)-p.i >= len(k) && strings.EqualFold(p.s[p.i:p.i+len(k)], k) && (p.i+len(k) == len(p.s) || fsSpace(p.s[p.i+len(k)]) || p.s[p.i+len(k)] == '(') {
 		p.i += len(k)
 		return true
 	}
